@@ -13,9 +13,15 @@
        followed by one token "out:<canary state>" for the entries outside the root
    dest <hexraw>              Destination parsing only:  "ok <hexpath>" | "err <status>"
    put <old> <new> <events…>  PUT syscall protocol (Model/DavPut.lean), see there
+   cond <now> <flags> <im> <inm> <ius> <lk>   webdav_if_match_or_unmodified_since (Model/DavCond.lean)
+        header values hex, "~" absent, "-" empty;  lk = f:<ino>:<size>:<mtime>:<nsec> (stat handed in)
+        | r:<size>:<mtime>:<nsec> (real file, found by the function's own lstat; inode not part of
+        flags) | enoent | enotdir | other      -> 0 | 412
+   etag <flags> <ino> <size> <mtime> <nsec>   http_etag_create -> hex
 -/
 import LtVerif.Model.Dav
 import LtVerif.Model.DavPut
+import LtVerif.Model.DavCond
 namespace Driver
 open LtVerif LtVerif.B LtVerif.Dav
 
@@ -99,7 +105,36 @@ def runSeq (t : Tree) : List String → List String → Option (List String)
         let (st, t') := step t r
         runSeq t' rest ((toString st ++ ";" ++ dumpTree t' true) :: acc)
 
+/-- "~" absent; a blank value is the header store's encoding of a removed header
+    (http_header_request_set with vlen 0 clears the tag bit; the request parser drops empty fields) -/
+def davOptHex (s : String) : Option (Option Bytes) :=
+  if s = "~" || s = "-" then some none else (ofHex s).map some
+
+def davLk (s : String) : Option DavCond.Lk :=
+  match s.splitOn ":" with
+  | ["f", i, z, m, n] =>
+    match i.toNat?, z.toNat?, m.toInt?, n.toNat? with
+    | some i, some z, some m, some n => some (.found ⟨i, z, m, n⟩)
+    | _, _, _, _ => none
+  | ["r", z, m, n] =>
+    match z.toNat?, m.toInt?, n.toNat? with
+    | some z, some m, some n => some (.found ⟨0, z, m, n⟩)
+    | _, _, _ => none
+  | ["enoent"] => some .enoent
+  | ["enotdir"] => some .enotdir
+  | ["other"] => some .other
+  | _ => none
+
 def davLine : List String → String
+  | ["cond", now, flags, im, inm, ius, lk] =>
+    match now.toInt?, flags.toNat?, davOptHex im, davOptHex inm, davOptHex ius, davLk lk with
+    | some now, some flags, some im, some inm, some ius, some lk =>
+      toString (DavCond.precond now flags im inm ius lk)
+    | _, _, _, _, _, _ => "bad-op"
+  | ["etag", flags, i, z, m, n] =>
+    match flags.toNat?, i.toNat?, z.toNat?, m.toInt?, n.toNat? with
+    | some flags, some i, some z, some m, some n => toHex (DavCond.etagCreate ⟨i, z, m, n⟩ flags)
+    | _, _, _, _, _ => "bad-op"
   | "seq" :: reqs =>
     match runSeq davInit reqs [] with
     | some out => " ".intercalate out
